@@ -822,6 +822,18 @@ fn gen_rec(
         2 => F::Not(Box::new(with_flip(fixes, Some(true), |fx| {
             gen_rec(rng, cfg, d, fx, fix_nesting)
         }))),
+        3 if rng.chance(1, 8) => {
+            // the chain idiom: one operator joining three to six operands without parentheses
+            // (the grammar reads it right-nested), for every operator incl. the non-associative ones
+            let op = *rng.pick(&[BinOp::And, BinOp::Or, BinOp::Xor, BinOp::Nor, BinOp::Nand, BinOp::Implies, BinOp::ImpliesInv, BinOp::Iff, BinOp::Nor, BinOp::Nand]);
+            let k = rng.range(3, 6);
+            let mut operands: Vec<F> = (0..k).map(|_| with_flip(fixes, None, |fx| gen_rec(rng, cfg, d.min(1), fx, fix_nesting))).collect();
+            let mut acc = operands.pop().expect("k >= 3");
+            while let Some(x) = operands.pop() {
+                acc = F::Bin(op, Box::new(x), Box::new(acc));
+            }
+            acc
+        }
         3 => {
             let op = *rng.pick(&[
                 BinOp::And,
